@@ -55,3 +55,67 @@ func Harness_C14_frame_rejects() {
 	}
 	v.Reach("C14.frame.rejects.end")
 }
+
+// ---- the framing decision for ANY compressor output ----
+// The LZ4 codec itself is replaced by a model pair: the compressor returns an arbitrary block of an
+// arbitrary length (0..len+2 bytes: shorter than, as long as, or longer than the input) and the
+// decompressor returns the original exactly for that block. What is decided is the frame format
+// around it: it has no "stored raw" flag - a payload as long as the announced size is taken as raw
+// bytes - so the writer must never frame a compressed block whose length equals the input's.
+
+var c14Model struct {
+	src   []byte
+	block []byte
+}
+
+func C14CompressHC(src, dst []byte, depth int) (int, error) {
+	m := v.Choice(len(src) + 3)
+	c14Model.src = append([]byte(nil), src...)
+	c14Model.block = c14Model.block[:0]
+	for i := 0; i < m; i++ {
+		b := v.NondetU8()
+		dst[i] = b
+		c14Model.block = append(c14Model.block, b)
+	}
+	return m, nil
+}
+
+func C14Uncompress(src, dst []byte) (int, error) {
+	same := len(src) == len(c14Model.block)
+	if same {
+		for i := range src {
+			same = v.And(same, src[i] == c14Model.block[i])
+		}
+	}
+	if !same || len(dst) < len(c14Model.src) {
+		return 0, errC14
+	}
+	return copy(dst, c14Model.src), nil
+}
+
+var errC14 = errorString("c14: not the block the compressor produced")
+
+type errorString string
+
+func (e errorString) Error() string { return string(e) }
+
+func Harness_C14_frame_any_compressor() {
+	n := v.Choice(4)
+	p := v.NondetBytes(n)
+	frame := CompressAndFrame(append([]byte(nil), p...))
+	size, data, err := DeFrame(frame)
+	v.Assert("C14.frame.any.deframe_ok", err == nil && int(size) == n)
+	out, err := Decompress(size, data)
+	v.Assert("C14.frame.any.decompress_ok", err == nil)
+	same := len(out) == n
+	if same {
+		for j := range p {
+			same = v.And(same, out[j] == p[j])
+		}
+	}
+	v.Assert("C14.frame.any.roundtrip_identity", same)
+	if len(c14Model.block) == n && n > 0 {
+		v.Reach("C14.frame.any.block_as_long_as_input")
+	}
+	v.Reach("C14.frame.any.end")
+}
